@@ -4,7 +4,7 @@ import ast
 import sympy as sp
 import itertools
 
-from ..astutil import (call_name, calls_in, dotted, enclosing_tests, func_params,
+from ..astutil import (param_default, call_name, calls_in, dotted, enclosing_tests, func_params,
                        norm, parents, raises_in, stmts_of)
 from ..cfg import CFG, ENTRY
 from ..report import RuleDef
@@ -890,6 +890,70 @@ def r9(ctx):
             raise AnalysisError('C17.R9', construct, f'stored value not understood: {show(now, 120)}')
 
 
+def r10(ctx):
+    """a falsy value that is not a dictionary (0, '', [], False) given as meta= / visual= is rejected like its truthy
+    twin ([1], 'x'): `self.meta = meta or RegionMeta()` swallows it, `RegionMeta() if meta is None else meta` does not.
+    Decided by evaluating every region constructor with such a value (the descriptor's validation running)."""
+    from ..vg import mark_quantity, reset_marks
+    m = ctx.model
+    n = 0
+    for ci in m.region_classes(concrete=True):
+        init = m.method(ci, '__init__')
+        if init is None:
+            continue
+        ps = func_params(init.node)[1:]
+        for slot in ('meta', 'visual'):
+            if slot not in ps:
+                continue
+            n += 1
+            bad = []
+            for label, val in (('0', sp.Integer(0)), ('[]', Tup((), 'list'))):
+                reset_marks()
+                ev = evaluator(ctx)
+                ev.descriptor_sets = True
+                kw = {}
+                for p_ in ps:
+                    k = m.descriptor_kind(ci, p_)
+                    if p_ == slot:
+                        kw[p_] = val
+                    elif p_ in ('meta', 'visual'):
+                        continue
+                    elif k in ('ScalarPixCoord', 'OneDPixCoord'):
+                        kw[p_] = Obj('PixCoord', {}, p_, m.cls('PixCoord'))
+                    elif k in ('ScalarSkyCoord', 'OneDSkyCoord'):
+                        kw[p_] = Obj('SkyCoord', {}, p_)
+                    elif k in ('PositiveScalarAngle', 'ScalarAngle'):
+                        kw[p_] = mark_quantity(sym(p_, positive=True))
+                    elif k == 'RegionType':
+                        base = 'PixelRegion' if m.is_subclass(ci, 'PixelRegion') else 'SkyRegion'
+                        leaf = m.cls('CirclePixelRegion' if base == 'PixelRegion' else 'CircleSkyRegion')
+                        kw[p_] = ev.symbolic_instance(leaf, p_)
+                    elif p_ == 'operator':
+                        from ..vg import ExtRef
+                        kw[p_] = ExtRef('operator.or_')
+                    elif p_ == 'text':
+                        kw[p_] = Const('label')
+                    elif p_ == 'nvertices':
+                        kw[p_] = sp.Integer(5)
+                    elif param_default(init.node, p_) is not None and k is None:
+                        continue
+                    else:
+                        kw[p_] = sym(p_, positive=True)
+                # single-field validators of the *other* parameters are switched off (their arguments are type-correct)
+                out = ev.run(init, [Obj(ci.name, {}, None, ci)], kw)
+                # rejected = no path of the constructor completes
+                if out.returns or getattr(out, 'fell_through', False):
+                    bad.append(label)
+            if bad:
+                ctx.bad(f'{ci.name}.__init__', f'falsy-{slot}-accepted',
+                        f'{ci.name}(..., {slot}={bad[0]}) is accepted (the value is replaced by an empty dictionary) although '
+                        f'{slot}=[1] and `region.{slot} = {bad[0]}` raise ValueError: `{slot} or Region{slot.capitalize()}()` treats every '
+                        f'falsy value as "not given"; only None means that', init.loc())
+            else:
+                ctx.ok(f'{ci.name}.__init__:{slot}', 'a falsy non-dictionary value is rejected by the descriptor')
+    ctx.need(n >= 30, 'constructors with meta/visual', f'only {n}')
+
+
 RULES = [
     RuleDef('R1', 'every parameter (and meta/visual) is a validating descriptor', r1, 23),
     RuleDef('R2', 'validate-then-store; delete refused; validators raise', r2, 12),
@@ -902,4 +966,5 @@ RULES = [
     RuleDef('R7', 'region lists only accept regions', r7, 4),
     RuleDef('R8', 'bounding-box / mask constructor guards', r8, 3),
     RuleDef('R9', 'Quantity-valued attributes are handed out and stored by value (rejected augmented assignment)', r9, 4),
+    RuleDef('R10', 'falsy non-dictionary meta=/visual= are rejected by every constructor (only None means "not given")', r10, 30),
 ]
